@@ -12,7 +12,7 @@
 (* These are the lemmas that make conformance transitive: the code is      *)
 (* shown equal to EncVal / DecVal pointwise by the trace checks.           *)
 (***************************************************************************)
-EXTENDS FieldValue, TLC
+EXTENDS FieldValue, TLC, Json
 
 CONSTANT Depth2        \* BOOLEAN: also nest containers in containers
 
@@ -62,5 +62,7 @@ TypePreserved == (Dom /\ R.ok) => DecVal(R.b).v.t = (IF v.t = "st" THEN "dt" ELS
 SortedOnWire == (Dom /\ R.ok) => LET d == DecVal(R.b) IN
                    \A i \in 1..(IF d.v.t = "table" THEN Len(d.v.e) - 1 ELSE 0) : TextLess(d.v.e[i].k, d.v.e[i+1].k)
 OrderIndependent == (Dom /\ v.t = "table" /\ Len(v.e) = 2) => EncVal(lg, MkTable(<< v.e[2], v.e[1] >>)) = R
+\* S2C: every small value once (generator config, -workers 1): the drivers encode/decode each with the real code
+EmitValue == lg \/ PrintT(<< "S2C", ToJson([v |-> v]) >>)
 LegacyOnlySigned == (Dom /\ lg /\ R.ok) => IntTags(DecVal(R.b).v) \subseteq { Tg.b, Tg.s, Tg.I, Tg.l }
 =============================================================================
